@@ -37,7 +37,7 @@ def shape_key(case, results):
             return "trk-" + t[1] + ("-invalid-choice" if "invalid-choice" in r.flags else "")
     return "none"
 
-SOURCE_TIE = "Source-level tie by proof (Tie/Attr, Tie/Record): the attribute updates (update_history, merge, apply) and the record conversions of the trackers, regenerated from the source on every run, equal the model's. Also by proof (Tie/Apply, Tie/ApplyModel, Props/C01t): the loop at the end of the four predict functions that turns the winners into store operations and records, and gen_track_id, as regenerated from the source, are a left-to-right fold that returns one record per detection in submission order and gives new tracks counter values never issued before; on the list store of the tracker model the Sort and BatchSort loops are applyPicks itself."
+SOURCE_TIE = "Source-level tie by proof (Tie/Attr, Tie/Record): the attribute updates (update_history, merge, apply) and the record conversions of the trackers, regenerated from the source on every run, equal the model's. Also by proof (Tie/Apply, Tie/ApplyModel, Props/C01t): the loop at the end of the four predict functions that turns the winners into store operations and records, and gen_track_id, as regenerated from the source, are a left-to-right fold that returns one record per detection in submission order and gives new tracks counter values never issued before; on the list store of the tracker model the Sort, BatchSort and VisualSort loops are applyPicks itself."
 LEVEL_TEXT = LEVEL_TEXT + " " + SOURCE_TIE
 TRUSTED_BASE = TRUSTED_BASE + ["translator/kernels.py + rustexpr.py (reader of the Rust subset, per-function tables) for the functions named in SOURCE_TIE; generated definitions are proof obligations (Tie modules) on every run"]
 TECHNIQUE = TECHNIQUE + "; model regenerated from the source by a translator for the functions of SOURCE_TIE, tied by proof"
